@@ -11,6 +11,7 @@ import (
 	_ "github.com/crossplane/crossplane/verifsim/props/c12"
 	_ "github.com/crossplane/crossplane/verifsim/props/c13"
 	_ "github.com/crossplane/crossplane/verifsim/props/c14"
+	_ "github.com/crossplane/crossplane/verifsim/props/c20"
 )
 
 // TestWorker is the single entry point of the harness binary; behaviour is
